@@ -432,14 +432,45 @@ class SqlParser:
         return self.postfix()
 
     def postfix(self):
+        """PostgreSQL's precedence among what follows an operand: `::` and a subscript bind tighter
+        than `->` / `->>` (an ordinary operator, left associative), so `x->>'f'::text` casts the
+        field name and `x->'f'[i]` subscripts it; `'f'(args)` after an arrow is accepted as the
+        translator's spelling of a method call"""
+        t = self.tight()
+        while self.peek() in (("op", "->"), ("op", "->>")):
+            self.take()
+            s = self.take("str")
+            name = TG.N(k="str", content=s[1])
+            # what binds to the field name before the arrow applies
+            bound = None
+            while True:
+                tok = self.peek()
+                if tok == ("op", "::"):
+                    self.take()
+                    w = self.take("kw")[1]
+                    if w == "double" and self.peek() == ("kw", "precision"):
+                        self.take()
+                    bound = "a cast binds to the field name, not to the field access (`::` binds tighter than `->`)"
+                elif tok == ("[",):
+                    self.take()
+                    self.expr()
+                    self.take("]")
+                    bound = "a subscript binds to the field name, not to the field access (`[ ]` binds tighter than `->`)"
+                else:
+                    break
+            if bound:
+                raise SqlError(bound)
+            t = TG.N(k="access", o=t, name=s[1])
+            if self.peek() == ("(",):
+                self.take()
+                t = TG.N(k="call", f=t, args=self.args(")"))
+        return t
+
+    def tight(self):
         t = self.primary()
         while True:
             tok = self.peek()
-            if tok in (("op", "->"), ("op", "->>")):
-                self.take()
-                s = self.take("str")
-                t = TG.N(k="access", o=t, name=s[1])
-            elif tok == ("op", "::"):
+            if tok == ("op", "::"):
                 self.take()
                 w = self.take("kw")[1]
                 if w == "double" and self.peek() == ("kw", "precision"):
@@ -456,10 +487,9 @@ class SqlParser:
                 e = self.expr()
                 self.take("]")
                 t = TG.N(k="index", o=t, e=e)
-            elif tok == ("(",):
+            elif tok == ("(",) and t["k"] in ("ident", "call"):
                 self.take()
-                args = self.args(")")
-                t = TG.N(k="call", f=t, args=args)
+                t = TG.N(k="call", f=t, args=self.args(")"))
             else:
                 return t
 
